@@ -645,6 +645,86 @@ def real_part(ctx, sc):
         raise core.Machinery('real replay self-test failed')
     ctx.extra['real'] = '%d (mantissa, base, exponent) triples of spec/RealObj.tla replayed into univ.Real (normal form, refusal of other bases, ==, float, int)' % len(states)
 
+
+# ------------------------------------------------------------------------------------ INTEGER / OCTET STRING objects (spec/ScalarObj.tla)
+INT_OPS = {'add': lambda a, x: a + x, 'radd': lambda a, x: x + a, 'sub': lambda a, x: a - x, 'rsub': lambda a, x: x - a,
+           'mul': lambda a, x: a * x, 'floordiv': lambda a, x: a // x, 'mod': lambda a, x: a % x, 'and': lambda a, x: a & x,
+           'or': lambda a, x: a | x, 'xor': lambda a, x: a ^ x, 'lshift': lambda a, x: a << x, 'rshift': lambda a, x: a >> x,
+           'pow': lambda a, x: a ** x, 'neg': lambda a, x: -a, 'pos': lambda a, x: +a, 'abs': lambda a, x: abs(a),
+           'invert': lambda a, x: ~a}
+
+
+def scalar_replay(state):
+    from pyasn1.type import univ
+    out = []
+    try:
+        if state['kind'] == 'int':
+            a = univ.Integer(state['start'])
+            raised = False
+            for op in state['hist']:
+                try:
+                    a = INT_OPS[op['o']](a, op['x'])
+                except Exception:
+                    raised = True
+                    break
+            if raised != (not state['okv']):
+                out.append('raised=%s, model defined=%s' % (raised, state['okv']))
+            elif state['okv']:
+                if not isinstance(a, univ.Integer) or not a.isValue:
+                    out.append('result is a %s, not an INTEGER value object' % type(a).__name__)
+                elif int(a) != state['val'] or a != state['val'] or hash(a) != hash(state['val']):
+                    out.append('result %r, model %d' % (int(a), state['val']))
+        else:
+            o = univ.OctetString(bytes(state['start']))
+            for op in state['hist']:
+                if op['o'] == 'concat':
+                    o = o + bytes(op['x'])
+                elif op['o'] == 'rconcat':
+                    o = bytes(op['x']) + o
+                elif op['o'] == 'repeat':
+                    o = o * op['n']
+                else:
+                    o = o[op['i']:op['j']]
+            if not isinstance(o, univ.OctetString) or not o.isValue:
+                out.append('result is a %s, not an OCTET STRING value object' % type(o).__name__)
+            elif list(o.asOctets()) != state['val'] or list(o.asNumbers()) != state['val'] or len(o) != len(state['val']) or \
+                    o != bytes(state['val']) or list(o) != state['val']:
+                out.append('result %s, model %s' % (bytes(o).hex(), bytes(state['val']).hex()))
+    except Exception as e:   # noqa
+        out.append('crash %s: %s' % (type(e).__name__, e))
+    return out
+
+
+def scalar_part(ctx, sc):
+    maxops = 2 if ctx.quick else 3
+    with open(sc.file('MC_scalar.cfg'), 'w') as f:
+        f.write('SPECIFICATION Spec\nCONSTANT MaxOps = %d\nINVARIANT DivModLaw\nINVARIANT InvertIsXorMinusOne\nINVARIANT DeMorganBits\n'
+                'INVARIANT RepeatLength\nCHECK_DEADLOCK FALSE\n' % maxops)
+    dump = sc.file('scalar.dump')
+    r = tlc.run(os.path.join(tlc.SPEC, 'ScalarObj.tla'), sc.file('MC_scalar.cfg'), sc, dump=dump, timeout=3000)
+    ctx.add_tlc('ScalarObj machines: INTEGER and OCTET STRING operator histories of <= %d' % maxops, r)
+    if not r.ok:
+        raise core.Machinery('ScalarObj model run failed: %s %s\n%s' % (r.violated, r.errors[:2], r.out[-1500:]))
+    states = list(tlaval.parse_dump(open(dump).read()))
+    os.remove(dump)
+    states.sort(key=lambda s: json.dumps(s, sort_keys=True))
+    res = core.pmap(scalar_replay, states, chunksize=1024)
+    bad = 0
+    for s, divs in zip(states, res):
+        ctx.evaluations += 1
+        if divs:
+            bad += 1
+            ctx.report('%s object: %s after %s: %s' % (s['kind'], s['start'], [tuple(sorted(o.items())) for o in s['hist']], '; '.join(divs[:3])),
+                       {'clause': 'ScalarObj', 'part': 'scalar', 'kind': s['kind'], 'ops': sorted({o['o'] for o in s['hist']})},
+                       {'prop': 'C14', 'kind': 'scalar', 'state': s, 'divergences': divs})
+    ctx.traces += len(states) - bad
+    ctx.keys.add(('scalar', len(states)))
+    flipped = json.loads(json.dumps(next(s for s in states if s['kind'] == 'int' and s['okv'] and s['hist'])))
+    flipped['val'] += 1
+    if not scalar_replay(flipped):
+        raise core.Machinery('scalar replay self-test failed')
+    ctx.extra['scalar'] = '%d operator histories of spec/ScalarObj.tla replayed into univ.Integer (17 operators) and univ.OctetString (+, *, slices)' % len(states)
+
 def run(ctx):
     with tlc.Scratch('c14') as sc:
         depth = 1 if ctx.quick else 2
@@ -682,6 +762,7 @@ def run(ctx):
         char_part(ctx, sc)
         named_part(ctx, sc)
         real_part(ctx, sc)
+        scalar_part(ctx, sc)
     ctx.rule = ('every state of the generator machine spec/Constraint.tla: (expression tree of depth <= %d over single value, range, '
                 'size, alphabet, intersection, union, exclusion) x candidate values around every boundary; derivation chains '
                 'T0 -> c1 -> c2; value-producing operations (+ - * // %% neg abs << >> ** ; concatenation, slicing, repetition; '
